@@ -1036,6 +1036,9 @@ def _read_asn1_object_identifier(
         hint=hint,
     )
 
+    if not raw_oid:
+        raise ValueError("Invalid ASN.1 OBJECT IDENTIFIER value, expecting at least 1 octet")
+
     first_element = struct.unpack("B", raw_oid[:1])[0]
     second_element = first_element % 40
     ids = [(first_element - second_element) // 40, second_element]
